@@ -21,6 +21,7 @@ static int rp_fail; static const char* rp_msg;
 #define VSTD_C_H
 #define CANARY_h_compute_diff9
 #define CANARY_h_compute_diff7
+#define CANARY_h_forwarding
 extern "C" { int nondet_int(void) {return 0;} unsigned char nondet_uchar(void) {return 0;} }
 #include "spec.c"
 extern "C" { void w_compute_diff7(void) {} void w_compute_diff9(int, int, int, int, int) {} }
